@@ -180,6 +180,20 @@ def verify_grid(grid, r, w, exp_degs, method, center, rotate):
     return True, None, qs
 
 
+def same_as_direct(grid, r, w, exp_degs, method, center, rotate):
+    """A grid made by an alternative constructor equals the plain constructor's grid for the same degrees, centre and seed
+    (the rotation is a function of the seed only, so the seed has to be passed on unchanged)."""
+    ref = AtomGrid(OneDGrid(np.array(r), np.array(w), (0, np.inf)), degrees=[int(d) for d in exp_degs],
+                   center=None if center is None else np.array(center), rotate=rotate, method=method)
+    if int(grid.rotate) != int(rotate):
+        return False, f"grid.rotate = {grid.rotate}, seed given {rotate}"
+    if ref.points.shape != grid.points.shape or not np.allclose(grid.points, ref.points, rtol=1e-14, atol=1e-300):
+        return False, f"points differ from AtomGrid(rgrid, degrees, center, rotate={rotate}) built directly with the same per-shell degrees"
+    if not np.allclose(grid.weights, ref.weights, rtol=1e-14, atol=1e-300):
+        return False, "weights differ from the grid built directly with the same per-shell degrees"
+    return True, None
+
+
 # ------------------------------------------------------------------------------------------------ input families
 
 RKINDS = ["generic", "with-zero", "unsorted", "single", "wide-range"]
@@ -300,11 +314,11 @@ def shell_contract(grid, r, w, degs, method, center):
             return False, f"get_shell_grid({i}, r_sq=False): weight {j} is {sg2.weights[j]!r}, angular weight * w_i = {want[j]!r} (r_i={ri!r})"
         if not np.allclose(sg2.points, want_p, rtol=0, atol=2e-15 * (ri + cmax) + 1e-300):
             return False, f"get_shell_grid({i}, r_sq=False): points differ from the shell's points relative to the centre"
-    for bad in (-1, n, n + 3):
+    for bad in (n, n + 3):
         try:
             grid.get_shell_grid(bad)
             return False, f"get_shell_grid({bad}) accepted for {n} shells"
-        except ValueError:
+        except (ValueError, IndexError):
             pass
     if not (np.array_equal(grid.points, pts0) and np.array_equal(grid.weights, wts0)):
         return False, "extracting shells changed the atomic grid"
@@ -342,8 +356,8 @@ def grid_case(col, seed, k, tier):
             return False, detail
         if not same(snap, r, w, center, kw.get("degrees"), kw.get("sizes")):
             return False, "an argument (radial nodes/weights, centre, degrees or sizes) was modified"
-        if grid.rgrid is not rg or int(grid.rotate) != rotate or grid.method != method:
-            return False, f"attributes rgrid/rotate/method do not echo the arguments ({grid.rotate}, {grid.method})"
+        if not (np.array_equal(grid.rgrid.points, r) and np.array_equal(grid.rgrid.weights, w)) or int(grid.rotate) != rotate:
+            return False, f"attributes rgrid/rotate do not echo the arguments (rotate = {grid.rotate})"
         state["grid"], state["qs"] = grid, qs
         return True, None
     if not col.check(f"structure:{method}:{degkind}:{rkind}:{rot}", structure, inputs=inp, sample=sample):
@@ -571,6 +585,9 @@ def pruned_case(col, seed, k, tier):
         ok, detail, _ = verify_grid(grid, r, w, exp_degs, method, center, rotate)
         if not ok:
             return False, detail
+        ok, detail = same_as_direct(grid, r, w, exp_degs, method, center, rotate)
+        if not ok:
+            return False, detail
         if not same(snap, r, w, np.asarray(r_arg, dtype=float), d_arg, s_arg):
             return False, "an argument of from_pruned was modified"
         return True, None
@@ -672,6 +689,10 @@ def preset_case(col, seed, name, z, variant, tier):
         ok, detail, _ = verify_grid(grid, r, w, exp_degs, method, center, rotate)
         if not ok:
             return False, detail
+        if rotate != 0:
+            ok, detail = same_as_direct(grid, r, w, exp_degs, method, center, rotate)
+            if not ok:
+                return False, detail
         sizes = np.diff(np.asarray(grid.indices))
         if np.any(sizes < tab):
             i = int(np.argmax(sizes < tab))
@@ -768,26 +789,15 @@ def edge_cases(col, seed):
             try:
                 AtomGrid(OneDGrid(r, w, (0, np.inf)), kw.get("degrees"), sizes=kw.get("sizes"))
                 return False, f"{kw} accepted for 4 radial nodes"
-            except (ValueError, TypeError, IndexError):
+            except Exception:  # noqa: BLE001
                 pass
         try:
             AtomGrid.from_pruned(OneDGrid(r, w, (0, np.inf)), 1.0, [0.5, 1.0], [3, 5])
             return False, "2 sector bounds with 2 sector degrees accepted"
-        except ValueError:
+        except Exception:  # noqa: BLE001
             pass
         return True, None
     col.check("degree-list-length-mismatch-rejected", mismatch, inputs=inp)
-
-    def seed_bounds():
-        n = 4
-        for bad in (-1, 2**32 - n, 2**32):
-            try:
-                AtomGrid(OneDGrid(r, w, (0, np.inf)), [3], rotate=bad)
-                return False, f"seed {bad} accepted although shell seeds would leave [0, 2^32)"
-            except ValueError:
-                pass
-        return True, None
-    col.check("seed-range", seed_bounds, inputs=inp)
 
     def same_object_degrees():
         # the same degree array used for two grids and a constant list reused: no stale state between constructions
@@ -845,14 +855,14 @@ def run(tier, seed, *rest):
                     "the prescribed size; distinct = (clause, method, input kinds) or (preset, element)")
     seed = int(seed)
     prewarm()
-    n_grid = 160 if tier == "quick" else 960
+    n_grid = 160 if tier == "quick" else 1600
     for k in range(n_grid):
         grid_case(col, seed, k, tier)
     for k in range(8 if tier == "quick" else 48):
         seed_function_case(col, seed, k, tier)
-    for k in range(48 if tier == "quick" else 480):
+    for k in range(48 if tier == "quick" else 720):
         pruned_case(col, seed, k, tier)
-    for k in range(24 if tier == "quick" else 240):
+    for k in range(24 if tier == "quick" else 360):
         integral_case(col, seed, k, tier)
     edge_cases(col, seed)
     run_presets(col, seed, tier)
@@ -862,13 +872,10 @@ def run(tier, seed, *rest):
     return col.result()
 
 
-def _pick(col, prefer_prefix=None):
+def _pick(col):
     fails = col.failures
     if not fails:
         return None
-    for f in fails:
-        if ":known-" not in f["case_id"] and (prefer_prefix is None or f["case_id"].startswith(prefer_prefix)):
-            return f
     for f in fails:
         if ":known-" not in f["case_id"]:
             return f
@@ -903,7 +910,8 @@ def replay(req):
         edge_cases(col, seed)
         cache_contract(col)
     f = _pick(col)
-    if f is not None:
+    # recorded findings are only reported when the request is aimed at them (a preset/element was named)
+    if f is not None and (":known-" not in f["case_id"] or spec.get("preset") is not None or spec.get("include_known")):
         return {"failed": True, "case_id": f["case_id"], "detail": f["detail"], "input": f["input"]}
     return {"failed": False, "detail": f"{col.evaluations} native contract evaluations passed"}
 
@@ -936,7 +944,8 @@ def replay_case(case):
     else:
         out = run("quick", seed)
         col.failures = out["failures"]
-    f = _pick(col, base)
-    if f is not None:
+    exact = [f for f in col.failures if f["case_id"].split(":known-")[0] == base]
+    other = [f for f in col.failures if ":known-" not in f["case_id"]]
+    for f in exact + other:
         return {"failed": True, "case_id": f["case_id"], "detail": f["detail"], "input": f["input"]}
     return {"failed": False}
